@@ -384,7 +384,7 @@ def eval_stream(ctx, case):
             if opt and not opt.get('wrapper_only'):
                 continue
             res = sl.feed_wrapper(data, cuts, queries=queries, empties=empties, short_reads=opt.get('short_reads'),
-                                  source_faults=opt.get('source_faults') or ())
+                                  source_faults=opt.get('source_faults') or (), carrier=opt.get('source_carrier', 'bytes'))
             if opt.get('short_reads'):
                 ctx.clause('W-short-read-source')
             ctx.case(('wrapper', data, tuple(cuts), tuple(empties), queries, tuple(sorted(opt.items()))),
@@ -492,6 +492,8 @@ def make_schedules(rng, n, bounds, count, max_chunks=70000):
     for klass, cuts, _e, _q in rng.sample(scheds, min(len(scheds), max(2, count // 4))):
         if 1 <= len(cuts) <= 3000:
             extra.append([klass + '+shortreads', cuts, [], False, {'wrapper_only': True, 'short_reads': True}])
+            extra.append([klass + '+source-buffer-reused', cuts, [], False,
+                          {'wrapper_only': True, 'source_carrier': rng.choice(['bytearray', 'memoryview'])}])
             extra.append([klass + '+source-error-retry', cuts, [], False,
                           {'wrapper_only': True, 'source_faults': [rng.choice([1, 1, 2, rng.randrange(1, len(cuts) + 2)])]}])
     return scheds + extra
